@@ -4,8 +4,8 @@
    code, the same node classes / fields / (start, end) token positions.
 
    State: (_pos, _max_pos).  Backtracking (`self._pos = pos`) restores the cursor only, as in
-   Python; `_max_pos` is reset to None by the `finally:` of the short-if branch (so an inner
-   short-if removes the fence of an outer one).  Exceptions are values; they are never
+   Python; `_max_pos` is restored to its previous value by the `finally:` of the short-if branch
+   (so an inner short-if does not remove the fence of an outer one).  Exceptions are values; they are never
    caught inside the parser, so the state after an error is irrelevant.
 
    Recursion: the functions are defined once, non-recursively, over a record [funs] of the
@@ -34,6 +34,7 @@ Definition raise {A} (e : err) : M A := fun _ => Err e.
 Definition get_pos : M Z := fun st => Ok (fst st, st).
 Definition set_pos (p : Z) : M unit := fun st => Ok (tt, (p, snd st)).
 Definition set_max (m : option Z) : M unit := fun st => Ok (tt, (fst st, m)).
+Definition get_max : M (option Z) := fun st => Ok (snd st, st).
 
 Declare Scope pm_scope.
 Delimit Scope pm_scope with pm.
@@ -122,6 +123,10 @@ Definition is_var (t : tree) : bool :=
 
 Definition is_call (t : tree) : bool :=
   let g := tag_of t in (g =? tFunctionCall) || (g =? tFunctionCallMethod).
+
+(* a result that counts as None for Python but consumed tokens (`()`) is kept as a hidden entry *)
+Definition hid_list (p : tree) : list tree :=
+  match p with PNone => [] | _ => [Hid p] end.
 
 Definition opt_tok (a : option (Z * token)) : tree :=
   match a with Some (i, t) => Tok i t | None => PNone end.
@@ -362,7 +367,7 @@ Definition exp_term_def : M tree :=
   p <- prefixexp_def ;;
   if negb (is_none p) then mk tExpValue pos [p] else
   (* p is None; if it is `()` the cursor stays behind the parentheses *)
-  let hid := match p with PNone => [] | _ => [Hid p] end in
+  let hid := hid_list p in
   t <- tableconstructor_def ;;
   if negb (is_none t) then mk tExpValue pos (hid ++ [t]) else
   u <- accept_first unops ;;
@@ -450,6 +455,7 @@ Definition if_def (pos ii : Z) : M tree :=
   match short with
   | Some ee =>
     (* PICO-8 short form: the body may not pass the next newline token *)
+    prev <- get_max ;;
     _ <- set_max (Some (find_newline (skipn (Z.to_nat ee) ts) ee)) ;;
     b <- r_chunk R ;; b <- assert_node b ;;
     el <- accept (pkw "else"%bs) ;;
@@ -459,7 +465,7 @@ Definition if_def (pos ii : Z) : M tree :=
             ret (if chunk_has_stats eb then [Kw ei; Lst [PNone; eb]] else [Kw ei; Hid eb])
           | None => ret []
           end ;;
-    _ <- set_max None ;;                               (* finally: self._max_pos = None *)
+    _ <- set_max prev ;;                               (* finally: self._max_pos = prev_max_pos *)
     if tag_of e =? tExpValue then
       en <- get_pos ;;
       ret (Node tStatIf pos en true [Kw ii; Lst (Lst (hidden_of e ++ [first_field e; b]) :: ep)])
@@ -618,7 +624,14 @@ Definition laststat_def : M tree :=
 Definition stats_loop_def : M (list tree) :=
   sm <- semis_def ;;
   s <- stat_def ;;
-  if is_none s then ret sm
+  if is_none s then
+    (* break is an ordinary statement (Lua 5.2): it may be followed by others *)
+    bp <- get_pos ;;
+    b <- accept (pkw "break"%bs) ;;
+    match b with
+    | None => ret sm
+    | Some (bi, _) => n <- mk tStatBreak bp [Kw bi] ;; r <- r_stats_loop R ;; ret (sm ++ n :: r)
+    end
   else r <- r_stats_loop R ;; ret (sm ++ s :: r).
 
 Definition chunk_def : M tree :=
